@@ -91,8 +91,9 @@ class GpRegressor:
         n_starts: int = None,
     ):
         # store the data
-        self.x = x if isinstance(x, ndarray) else array(x)
-        self.y = y if isinstance(y, ndarray) else array(y)
+        # (as floats: integer-typed data would otherwise be processed in their own type)
+        self.x = array(x, dtype=float)
+        self.y = array(y, dtype=float)
         self.y = self.y.squeeze()
 
         if self.y.ndim != 1:
@@ -290,7 +291,7 @@ class GpRegressor:
                     """
                 )
 
-            return y_cov
+            return y_cov.astype(float)
 
         elif y_err is not None:
             # if y_err is given as a list or tuple, attempt conversion to an array
@@ -317,7 +318,7 @@ class GpRegressor:
                     """
                 )
 
-            return diag(y_err**2)
+            return diag(y_err.astype(float) ** 2)
         else:
             return zeros([self.n_points, self.n_points])
 
